@@ -63,6 +63,100 @@ type Term struct {
 	Val  uint64 // OpConst value (Bool: 0/1); OpExtract: lo bit
 	Name string // OpVar / OpUF
 	ID   int
+	ct   int8 // const-tree flag: 0 unknown, 1 ite-DAG over constants, 2 not
+}
+
+// isConstTree reports whether t is a constant or an ite-DAG whose leaves are
+// all constants (a "guarded value set").
+func (t *Term) isConstTree() bool {
+	if t.ct != 0 {
+		return t.ct == 1
+	}
+	switch {
+	case t.Op == OpConst:
+		t.ct = 1
+	case t.Op == OpIte && t.W != 0 && t.Args[1].isConstTree() && t.Args[2].isConstTree():
+		t.ct = 1
+	default:
+		t.ct = 2
+	}
+	return t.ct == 1
+}
+
+// mapLeaves rebuilds a const-tree with f applied to every leaf constant.
+func (c *Ctx) mapLeaves(t *Term, f func(*Term) *Term, memo map[int]*Term) *Term {
+	if t.Op == OpConst {
+		return f(t)
+	}
+	if r, ok := memo[t.ID]; ok {
+		return r
+	}
+	r := c.Ite(t.Args[0], c.mapLeaves(t.Args[1], f, memo), c.mapLeaves(t.Args[2], f, memo))
+	memo[t.ID] = r
+	return r
+}
+
+// LeafValues returns the distinct leaf constants of a const-tree (cached).
+func (c *Ctx) LeafValues(t *Term) []uint64 {
+	if v, ok := c.leafCache[t.ID]; ok {
+		return v
+	}
+	seen := map[int]bool{}
+	vals := map[uint64]bool{}
+	var walk func(x *Term)
+	walk = func(x *Term) {
+		if seen[x.ID] {
+			return
+		}
+		seen[x.ID] = true
+		if x.Op == OpConst {
+			vals[x.Val] = true
+			return
+		}
+		walk(x.Args[1])
+		walk(x.Args[2])
+	}
+	walk(t)
+	out := make([]uint64, 0, len(vals))
+	for v := range vals {
+		out = append(out, v)
+	}
+	sort.Slice(out, func(i, j int) bool { return out[i] < out[j] })
+	c.leafCache[t.ID] = out
+	return out
+}
+
+const treeProductMax = 4096
+
+// liftBin applies a binary operation leaf-wise when both operands are
+// const-trees (at least one of them not a plain constant).
+func (c *Ctx) liftBin(a, b *Term, f func(x, y *Term) *Term) (*Term, bool) {
+	if a.IsConst() && b.IsConst() {
+		return nil, false
+	}
+	if !a.isConstTree() || !b.isConstTree() {
+		return nil, false
+	}
+	if b.IsConst() {
+		return c.mapLeaves(a, func(x *Term) *Term { return f(x, b) }, map[int]*Term{}), true
+	}
+	if a.IsConst() {
+		return c.mapLeaves(b, func(y *Term) *Term { return f(a, y) }, map[int]*Term{}), true
+	}
+	va, vb := c.LeafValues(a), c.LeafValues(b)
+	if len(va)*len(vb) > treeProductMax {
+		return nil, false
+	}
+	// one rebuilt copy of b per distinct leaf value of a
+	perX := map[uint64]*Term{}
+	return c.mapLeaves(a, func(x *Term) *Term {
+		if r, ok := perX[x.Val]; ok {
+			return r
+		}
+		r := c.mapLeaves(b, func(y *Term) *Term { return f(x, y) }, map[int]*Term{})
+		perX[x.Val] = r
+		return r
+	}, map[int]*Term{}), true
 }
 
 type tkey struct {
@@ -79,11 +173,12 @@ type Ctx struct {
 	True  *Term
 	False *Term
 	// UF signatures: name -> (arg widths, result width)
-	ufs map[string][]int
+	ufs       map[string][]int
+	leafCache map[int][]uint64
 }
 
 func NewCtx() *Ctx {
-	c := &Ctx{table: map[tkey]*Term{}, ufs: map[string][]int{}}
+	c := &Ctx{table: map[tkey]*Term{}, ufs: map[string][]int{}, leafCache: map[int][]uint64{}}
 	c.True = c.mk(OpConst, 0, 1, "", nil)
 	c.False = c.mk(OpConst, 0, 0, "", nil)
 	return c
@@ -339,6 +434,11 @@ func (c *Ctx) Eq(a, b *Term) *Term {
 	if a.IsConst() {
 		a, b = b, a
 	}
+	if a.W != 0 {
+		if r, ok := c.liftBin(a, b, func(x, y *Term) *Term { return c.Bool(x.Val == y.Val) }); ok {
+			return r
+		}
+	}
 	// push equality with a constant through ite (keeps ite-chains over
 	// literal bytes foldable).
 	if b.IsConst() && a.Op == OpIte && (a.Args[1].IsConst() || a.Args[2].IsConst() || a.Args[1].Op == OpIte || a.Args[2].Op == OpIte) {
@@ -382,6 +482,14 @@ func (c *Ctx) bin(op Op, a, b *Term) *Term {
 	if a.IsConst() && b.IsConst() {
 		if v, ok := foldBin(op, a.Val, b.Val, w); ok {
 			return c.BV(v, w)
+		}
+	}
+	if op != OpSDiv && op != OpSRem {
+		if r, ok := c.liftBin(a, b, func(x, y *Term) *Term {
+			v, _ := foldBin(op, x.Val, y.Val, w)
+			return c.BV(v, w)
+		}); ok {
+			return r
 		}
 	}
 	switch op {
@@ -550,6 +658,9 @@ func (c *Ctx) cmp(op Op, a, b *Term) *Term {
 	if a == b {
 		return c.Bool(op == OpUle || op == OpSle)
 	}
+	if r, ok := c.liftBin(a, b, func(x, y *Term) *Term { return c.cmp(op, x, y) }); ok {
+		return r
+	}
 	// comparisons of ite-of-constants with a constant fold through
 	if b.IsConst() && a.Op == OpIte && (a.Args[1].IsConst() || a.Args[2].IsConst()) {
 		return c.Ite(a.Args[0], c.cmp(op, a.Args[1], b), c.cmp(op, a.Args[2], b))
@@ -596,6 +707,9 @@ func (c *Ctx) Zext(a *Term, w int) *Term {
 	if a.IsConst() {
 		return c.BV(a.Val, w)
 	}
+	if a.isConstTree() {
+		return c.mapLeaves(a, func(x *Term) *Term { return c.BV(x.Val, w) }, map[int]*Term{})
+	}
 	if a.Op == OpIte && (a.Args[1].IsConst() || a.Args[2].IsConst()) {
 		return c.Ite(a.Args[0], c.Zext(a.Args[1], w), c.Zext(a.Args[2], w))
 	}
@@ -615,6 +729,9 @@ func (c *Ctx) Sext(a *Term, w int) *Term {
 	if a.IsConst() {
 		return c.BV(uint64(a.SVal()), w)
 	}
+	if a.isConstTree() {
+		return c.mapLeaves(a, func(x *Term) *Term { return c.BV(uint64(x.SVal()), w) }, map[int]*Term{})
+	}
 	if a.Op == OpIte && (a.Args[1].IsConst() || a.Args[2].IsConst()) {
 		return c.Ite(a.Args[0], c.Sext(a.Args[1], w), c.Sext(a.Args[2], w))
 	}
@@ -628,6 +745,9 @@ func (c *Ctx) Extract(a *Term, lo, w int) *Term {
 	}
 	if a.IsConst() {
 		return c.BV(a.Val>>uint(lo), w)
+	}
+	if a.isConstTree() {
+		return c.mapLeaves(a, func(x *Term) *Term { return c.BV(x.Val>>uint(lo), w) }, map[int]*Term{})
 	}
 	if lo == 0 && (a.Op == OpZext || a.Op == OpSext) && a.Args[0].W >= w {
 		return c.Extract(a.Args[0], 0, w)
